@@ -380,6 +380,8 @@ impl WorkerTree {
             });
 
             for node_index in remove_nodes {
+                self.restart_work(node_index);
+
                 if let Some(work_item) = self.graph.remove_node(node_index) {
                     if !work_item.data.is_in_place() {
                         self.remove_files
